@@ -36,6 +36,7 @@ type G struct {
 	wake    chan struct{}
 	wait    *lockWait
 	exiting bool
+	doomed  bool // belongs to a crashed generation: exits at its next point
 	Done    atomic.Bool
 	Client  bool
 }
@@ -49,12 +50,36 @@ func New() *S {
 	return &S{byGoid: map[int64]*G{}, Arrive: make(chan struct{}, 1), nextID: 100, firsts: map[string]int{}}
 }
 
-func active() *S {
-	s := cur.Load()
-	if s != nil && (s.controlled.Load() || s.dead.Load()) {
-		return s
+// active returns the installed scheduler (points are registered even in the
+// free phase, so that every goroutine of an execution is known).
+func active() *S { return cur.Load() }
+
+// Doom marks every goroutine known so far, except clients and the caller, as
+// belonging to a crashed generation: each exits (runtime.Goexit) at its next
+// point. Goroutines first seen later are unaffected.
+func (s *S) Doom() {
+	me := goid()
+	s.mu.Lock()
+	var wake []*G
+	for id, g := range s.byGoid {
+		if id == me || g.Client {
+			continue
+		}
+		g.doomed = true
 	}
-	return nil
+	kept := s.parked[:0]
+	for _, g := range s.parked {
+		if g.doomed {
+			wake = append(wake, g)
+		} else {
+			kept = append(kept, g)
+		}
+	}
+	s.parked = kept
+	s.mu.Unlock()
+	for _, g := range wake {
+		close(g.wake)
+	}
 }
 
 // SetControlled switches between the controlled phase (points park) and the
@@ -137,12 +162,15 @@ func Point(label string) {
 
 func (s *S) point(w *lockWait, label string) {
 	g := s.me(label)
-	if s.dead.Load() {
+	if s.dead.Load() || g.doomed {
 		if g.exiting {
 			return // deferred calls of an exiting goroutine run to completion
 		}
 		g.exiting = true
 		runtime.Goexit()
+	}
+	if !s.controlled.Load() {
+		return // free phase: points pass through
 	}
 	s.Points.Add(1)
 	g.wait, g.Label = w, label
@@ -155,7 +183,7 @@ func (s *S) point(w *lockWait, label string) {
 	default:
 	}
 	<-g.wake
-	if s.dead.Load() && !g.exiting {
+	if (s.dead.Load() || g.doomed) && !g.exiting {
 		g.exiting = true
 		runtime.Goexit()
 	}
